@@ -1,9 +1,9 @@
 (* Extract/C03.v — extraction of the C03 model (BIP32) for the correspondence driver.
    Directives in force: only those of the two standard files required here. *)
 From Coq Require Extraction ExtrOcamlBasic ExtrOcamlZBigInt.
-From Verif Require Import Lib.Bytes Crypto.Secp256k1 Model.Bip32.
+From Verif Require Import Lib.Bytes Crypto.Secp256k1 Model.Bip32 Proofs.Bip32Construct.
 Extraction Language OCaml.
 Extraction "../ocaml/c03_model.ml" bz zb lib_from_seed lib_child_private lib_child_public lib_public
   lib_subkey_for_path lib_parse_path lib_point_of_bytes lib_import_pub lib_public_byte lib_private_byte lib_wif
   lib_is_private lib_chain lib_meta s_master s_subkey s_ser_prv s_ser_pub sem ser_pub
-  lib_wif_index lib_public_master pm_items cfg_after op_key op_self session_step session_run lib_session.
+  lib_wif_index lib_public_master pm_items cfg_after op_key op_self session_step session_run lib_session lib_construct.
